@@ -544,7 +544,7 @@ def route_ok(r, static_files):
     return r["rule"] in PUBLIC or ((not static_files) if r["static"] else r["prot"])
 
 
-def gen_lean(table, static_files, triples=(), calls=None, mrows=None, rrows=None):
+def gen_lean(table, static_files, triples=(), calls=None, mrows=None, rrows=None, id_rows=None):
     rows = ",\n    ".join(
         "{ rule := %s, methods := [%s], prot := %s, autoOptions := %s, static := %s }" % (
             lean_str(r["rule"]), ", ".join(lean_str(m) for m in r["methods"]),
@@ -640,6 +640,12 @@ def gen_lean(table, static_files, triples=(), calls=None, mrows=None, rrows=None
             if tgt is not None:
                 body += (f"theorem violated_method : ¬ C15_fullM table methodObs := C15_witness_method table methodObs {tgt[0]} {lean_str(tgt[1])} (by decide)\n"
                          "#print axioms violated_method\n")
+    if id_rows is not None:
+        ibody, iverdict = gen_ids(table, static_files, id_rows)
+        body += ibody
+        verdict.update(iverdict)
+        if not iverdict["protection_decided_by_rule"]:
+            verdict["full"] = False
     if rrows is not None:
         body += "def residueObs : ResidueObs := [\n    " + ",\n    ".join("(%s, %s)" % (lean_str(n_), str(bool(v_)).lower()) for n_, v_ in rrows) + " ]\n"
         stateless = not any(v_ for _, v_ in rrows)
@@ -682,26 +688,43 @@ def gen_lean(table, static_files, triples=(), calls=None, mrows=None, rrows=None
 PROBE_METHODS = ["GET", "HEAD", "POST", "PUT", "DELETE", "PATCH", "OPTIONS", "TRACE"]
 
 
-def probe_method_check():
-    """(method, the wrapper let a refused credential through?) — a wrapped view is called directly inside a request
-    context of each method (so Flask's own 405 / automatic OPTIONS do not hide anything), without header and with a
-    wrong token; "through" = the view's inner function was entered."""
+def probe_method_check(table=()):
+    """(method, was a refused credential let through for this method?).  If the check wraps the view (decorator), a
+    wrapped view is called directly inside a request context of each method, so that Flask's own 405 / automatic OPTIONS
+    hide nothing.  If calling the view directly reaches it even for GET (the check sits in front of the dispatch, e.g. a
+    before_request hook), every method is sent through the dispatcher to a protected rule that allows it; a method no
+    protected rule dispatches cannot reach a view."""
     from BPTK_Py.server import BptkServer
     app = BptkServer("c15meth", factory, None, TOKEN)
     app.logger.disabled = True
     reach = Reach(app)
     rows = []
+    def direct(m, hdrs):
+        reach.hit = False
+        try:
+            with app.test_request_context("/scenarios", method=m, headers=hdrs):
+                app._scenarios_resource()
+        except Exception:
+            pass
+        return bool(reach.hit)
     try:
+        wrapper_mode = not direct("GET", {})
         for m in PROBE_METHODS:
             through = False
             for hdrs in ({}, {"Authorization": "Bearer not-the-token"}):
-                reach.hit = False
-                try:
-                    with app.test_request_context("/scenarios", method=m, headers=hdrs):
-                        app._scenarios_resource()
-                except Exception:
-                    pass
-                through = through or bool(reach.hit)
+                if wrapper_mode:
+                    through = through or direct(m, hdrs)
+                else:
+                    rule = next((r["rule"] for r in table if r["rule"] not in PUBLIC and not r["static"] and m in r["methods"]
+                                 and not (m == "OPTIONS" and r["auto"])), None)
+                    if rule is not None:
+                        reach.hit = False
+                        try:
+                            resp = app.test_client().open(re.sub(r"<[^>]*>", "0123456789abcdef0123456789abcdef", rule), method=m, headers=hdrs)
+                            resp.close()
+                        except Exception:
+                            pass
+                        through = through or bool(reach.hit)
             rows.append((m, through))
     finally:
         reach.close()
@@ -916,43 +939,144 @@ def history_random(chk, table, out, n_hist, per_hist):
     return n
 
 
+# ------------------------------------------------------------------ the instance-id axis: ids spelled like rule literals (wave 9)
+LITERAL_IDS = ["metrics", "healthy", "full-metrics", "scenarios", "run", "save-state", "load-state", "start-instance", "start-instances",
+               "equations", "agents"]       # not "static": GET /static/<x> is dispatched to Flask's static rule, not to the instance rule
+PUBLIC_SEGMENTS = ["", "healthy", "metrics", "full-metrics"]
+CONTROL_ID = "(an ordinary id)"
+
+
+def collision_world(variant):
+    """a server on which the ids of LITERAL_IDS are: `unknown` — not known at all; `stored` — externalised under that id
+    (state file written through the adapter API, not in memory); `restarted` — written the same way and then loaded by a
+    restarted server, i.e. LIVE sessions whose id is spelled `metrics`, `healthy`, `full-metrics`"""
+    import copy as _copy
+    from BPTK_Py.externalstateadapter import InstanceState
+    w = World("live-session")
+    lits = LITERAL_IDS if variant != "restarted" else LITERAL_IDS[:3]
+    if variant in ("stored", "restarted"):
+        ad = w.app._external_state_adapter
+        src = ad.load_instance(w.ids["STORED"])
+        for lit in lits:
+            ad.save_instance(InstanceState(_copy.deepcopy(src.state), lit, src.time, _copy.deepcopy(src.timeout), src.step))
+    if variant == "restarted":
+        w.reach.close()
+        for v in list(w.app._instance_manager._instances.values()):
+            try:
+                v["instance"].destroy()
+            except Exception:
+                pass
+        w.app = build_app(w.token, w.dir)          # the server process is started again on the state directory
+        w.client = w.app.test_client()
+        w.reach = Reach(w.app)
+    for lit in lits:
+        w.ids["ID:" + lit] = lit
+    w.lits = lits
+    w.base = snapshot(w.app, w.dir)
+    return w
+
+
+def rule_patterns(table):
+    pats = []
+    for r in table:
+        segs = [x for x in r["rule"].strip("/").split("/")] if r["rule"].strip("/") else []
+        pats.append([None if x.startswith("<") else x for x in segs])
+    return pats
+
+
+def id_collision_stream(chk, table, out):
+    """every instance rule x dispatched method (but OPTIONS) x refused credential shapes x ids spelled like the public
+    resources and the other rule literals. Returns the rows (id spelling, rule index, refused credential served?)."""
+    req_lines, real_lines, ctx, findings, dist = out
+    served = {}
+    n = 0
+    for variant, shapes_ in (("unknown", H_SHAPES[:2]), ("stored", H_SHAPES[:3]), ("restarted", H_SHAPES[:2])):
+        w = collision_world(variant)
+        try:
+            for ti, r in enumerate(table):
+                if "<" not in r["rule"] or r["static"]:
+                    continue
+                for m in [x for x in r["methods"] if x != "OPTIONS"]:
+                    for lit in list(w.lits) + [CONTROL_ID]:
+                        for name, hdr in shapes_:
+                            idn = "ID:" + lit if lit != CONTROL_ID else ("UNKNOWN" if variant == "unknown" else "STORED")
+                            status, reached, changes = w.request(r["rule"], m, idn, hdr, UNION_BODY if m in ("POST", "PUT") else None)
+                            n += 1
+                            req_lines.append("req %d %s %s %s" % (ti, m, "absent" if hdr is None else enc(hdr), enc("x.txt")))
+                            real_lines.append("view" if reached else str(status))
+                            case = {"state": "live-session", "id_variant": variant, "rule": r["rule"], "method": m, "instance": idn, "shape": name,
+                                    "header": hdr, "body": m in ("POST", "PUT"), "trailing_slash": False}
+                            ctx.append(case)
+                            chk.case(("id", variant, r["rule"], m, lit, name), nontrivial=True)
+                            dist["by_instance_id"]["literal:" + variant] = dist["by_instance_id"].get("literal:" + variant, 0) + 1
+                            key = classify(r["rule"], m, False, status, reached, changes)
+                            served[(lit, ti)] = served.get((lit, ti), False) or bool(key)
+                            if key and key not in findings:
+                                findings[key] = (f"{m} {r['rule'].replace('<instance_uuid>', lit)} (the instance id is spelled {lit!r}; {variant}) with Authorization "
+                                                 f"{'absent' if hdr is None else repr(hdr)} -> HTTP {status}, view reached: {reached}, state changes: {changes or 'none'}",
+                                                 dict(case, status=status, reached=reached, changes=changes, token=TOKEN))
+                            if changes:
+                                w.close(); w = collision_world(variant); dist["rebuilds"] += 1
+        finally:
+            w.close()
+    # a row counts only if the same rule refuses an ordinary id: what is served for every id is not an effect of the spelling
+    return [(lit, ti, v and not served.get((CONTROL_ID, ti), False)) for (lit, ti), v in sorted(served.items()) if lit != CONTROL_ID], n
+
+
+def gen_ids(table, static_files, id_rows):
+    pats = rule_patterns(table)
+    def lean_pat(p):
+        return "[" + ", ".join(".var" if x is None else ".lit " + lean_str(x) for x in p) + "]"
+    body = "def patterns : List (List Seg) := [" + ", ".join(lean_pat(p) for p in pats) + "]\n"
+    body += "def idObs : IdObs := [" + ", ".join("(%s, %d, %s)" % (lean_str(l), i, str(bool(v)).lower()) for l, i, v in id_rows) + "]\n"
+    bad = next(((l, i) for l, i, v in id_rows if v), None)
+    verdict = {"protection_decided_by_rule": bad is None}
+    if not static_files:
+        body += ("theorem table_separated : tableSeparated table patterns = true := by decide\n"
+                 "theorem protection_by_rule : C15_fullP (ruleExempt table patterns) table patterns :=\n"
+                 "  C15_by_rule_of_separated table patterns rfl table_separated (pats_total table patterns (by decide))\n"
+                 "#print axioms table_separated\n#print axioms protection_by_rule\n")
+    if bad is None:
+        body += "theorem protection_decided_by_rule : protectionDecidedByRule idObs = true := by decide\n#print axioms protection_decided_by_rule\n"
+    else:
+        body += "theorem protection_not_by_rule : protectionDecidedByRule idObs = false := by decide\n#print axioms protection_not_by_rule\n"
+        lit, i = bad
+        m = next((x for x in table[i]["methods"] if x != "OPTIONS"), None)
+        if lit in PUBLIC_SEGMENTS and m and len(pats[i]) == 2 and pats[i][0] is None and pats[i][1] is not None:
+            body += (f"theorem violated_first_segment : ¬ C15_fullP (firstSegExempt [{', '.join(lean_str(x) for x in PUBLIC_SEGMENTS)}]) table patterns :=\n"
+                     f"  C15_witness_first_segment table patterns [{', '.join(lean_str(x) for x in PUBLIC_SEGMENTS)}] {i} {lean_str(m)} {lean_str(lit)} {lean_str(pats[i][1])} (by decide)\n"
+                     "#print axioms violated_first_segment\n")
+        verdict["id_collision"] = {"id": lit, "rule": table[i]["rule"]}
+    return body, verdict
+
+
 # ------------------------------------------------------------------ call order inside one request (wave 5)
 TRACE_TOOL = 5
 TRACE_MAX = 10
 
 
 class CallTrace:
-    """sys.monitoring PY_START, process-wide, filtered by source file: entries of the `token_required` wrapper are
-    recorded as "check", entries of every other function defined in bptkServer.py, in the external-state adapter
-    package and in bptk.py (view bodies, helpers such as _ensure_instance_exists, InstanceManager methods,
-    before_request hooks, bptk methods) as ("touch", qualified name)."""
-    def __init__(self):
+    """sys.monitoring, process-wide, filtered by source file.  The token check is recognised BEHAVIOURALLY, wherever it
+    lives (decorator wrapper, before_request hook, helper): `discover` sends refused requests and takes every function
+    of bptkServer.py that RETURNS the 401 response (or raises a 401) as check code.  Recorded afterwards: "check" = entry
+    of check code; ("touch", qualified name) = entry of a function that reads or writes server state — every function of
+    InstanceManager, of the external-state adapter package and of bptk.py, and the bodies of the registered views.
+    Other functions of bptkServer.py (hooks, helpers that only look at the request and the configured token) are
+    neither: what they do to the state shows as calls into the state classes or in the state-equality reference."""
+    def __init__(self, app):
         import BPTK_Py.server.bptkServer as S
         import BPTK_Py.externalstateadapter as A
         import BPTK_Py.bptk
         B = sys.modules["BPTK_Py.bptk"]
-        self.files = {S.__file__: "server", B.__file__: "bptk"}
+        self.server_file, self.bptk_file = S.__file__, B.__file__
         self.adir = os.path.dirname(A.__file__)
         self.check_codes = set()
-        tr = S.BptkServer.__dict__.get("token_required")
-        tr = getattr(tr, "__func__", tr)
-        if tr is not None and hasattr(tr, "__code__"):
-            todo = [tr.__code__]
-            while todo:
-                c = todo.pop()
-                for k in c.co_consts:
-                    if isinstance(k, types.CodeType):
-                        self.check_codes.add(k); todo.append(k)
-        self.skip = {tr.__code__} if tr is not None and hasattr(tr, "__code__") else set()
-        # the functions behind the wrapper: entering one of them means the check of this request has passed
-        self.wrapped_codes = set()
-        for v in vars(S.BptkServer).values():
-            f = getattr(v, "__func__", v)
-            if getattr(f, "__code__", None) in self.check_codes and getattr(f, "__wrapped__", None) is not None:
-                self.wrapped_codes.add(getattr(f.__wrapped__, "__code__", None))
-        self.state_prefixes = ("InstanceManager.", "ExternalStateAdapter.", "FileAdapter.", "bptk.")
+        self.view_codes = set()
+        for ep, view in app.view_functions.items():
+            if ep != "static":
+                self.view_codes.update(inner_codes(view))
         self.on = False
-        self.in_check = 0
+        self.discovering = False
         self.events = []
         mon = sys.monitoring
         try:
@@ -962,40 +1086,57 @@ class CallTrace:
             mon.use_tool_id(TRACE_TOOL, "verif-c15-calls")
         mon.register_callback(TRACE_TOOL, mon.events.PY_START, self._cb)
         mon.register_callback(TRACE_TOOL, mon.events.PY_RETURN, self._ret)
-        mon.register_callback(TRACE_TOOL, mon.events.PY_UNWIND, self._ret)
-        mon.set_events(TRACE_TOOL, mon.events.PY_START | mon.events.PY_UNWIND)
-        for c in self.check_codes:
-            mon.set_local_events(TRACE_TOOL, c, mon.events.PY_RETURN)
+        mon.register_callback(TRACE_TOOL, mon.events.PY_UNWIND, self._unwind)
+        mon.set_events(TRACE_TOOL, mon.events.PY_START | mon.events.PY_RETURN | mon.events.PY_UNWIND)
+
+    def _mine(self, code):
+        fn = code.co_filename
+        return fn == self.server_file or fn == self.bptk_file or fn.startswith(self.adir)
 
     def _ret(self, code, offset, value):
-        if code in self.check_codes and self.in_check > 0:
-            self.in_check -= 1       # the wrapper returned (refusal, or the wrapped function's answer) or raised
-
-    def _cb(self, code, offset):
-        fn = code.co_filename
-        if fn not in self.files and not fn.startswith(self.adir):
+        if not self._mine(code):
             return sys.monitoring.DISABLE
-        if not self.on or code in self.skip:
-            return None
-        if code in self.check_codes:
-            self.in_check += 1
-            self.helper = True
-            if len(self.events) < TRACE_MAX:
-                self.events.append("check")
-            return None
-        q = getattr(code, "co_qualname", code.co_name)
-        if code in self.wrapped_codes:
-            self.helper = False
-        elif self.in_check > 0 and getattr(self, "helper", False) and not q.startswith(self.state_prefixes):
-            return None                  # a helper of the comparison itself (runs inside the wrapper, before the wrapped function)
-        if "<" in q.split(".")[-1]:      # lambdas / comprehensions inside a traced function
-            return None
-        if len(self.events) < TRACE_MAX:
-            self.events.append(q)
+        if self.discovering and code.co_filename == self.server_file and getattr(value, "status_code", None) == 401:
+            self.check_codes.add(code)
         return None
 
+    def _unwind(self, code, offset, exc):
+        if self.discovering and self._mine(code) and code.co_filename == self.server_file and getattr(exc, "code", None) == 401:
+            self.check_codes.add(code)
+
+    def _cb(self, code, offset):
+        if not self._mine(code):
+            return sys.monitoring.DISABLE
+        if not self.on or len(self.events) >= TRACE_MAX:
+            return None
+        if code in self.check_codes:
+            self.events.append("check")
+            return None
+        q = getattr(code, "co_qualname", code.co_name)
+        if "<" in q.split(".")[-1]:      # lambdas / comprehensions inside a traced function
+            return None
+        if code.co_filename == self.server_file and not q.startswith("InstanceManager.") and code not in self.view_codes:
+            return None                  # hook / helper of the server class: not a state function by itself
+        self.events.append(q)
+        return None
+
+    def discover(self, w):
+        """refused requests (no header, wrong token, on a plain and on an instance rule): who answers 401?"""
+        self.discovering = True
+        try:
+            for rule, m, idn, hdr in (("/scenarios", "GET", "UNKNOWN", None), ("/run", "POST", "UNKNOWN", "Bearer not-the-token"),
+                                      ("/<instance_uuid>/run-step", "POST", "UNKNOWN", None)):
+                try:
+                    w.request(rule, m, idn, hdr, UNION_BODY if m == "POST" else None)
+                except Exception:
+                    pass
+        finally:
+            self.discovering = False
+        self.view_codes -= self.check_codes
+        return sorted(getattr(c, "co_qualname", c.co_name) for c in self.check_codes)
+
     def start(self):
-        self.events, self.on, self.in_check, self.helper = [], True, 0, False
+        self.events, self.on = [], True
 
     def stop(self):
         self.on = False
@@ -1004,23 +1145,25 @@ class CallTrace:
     def close(self):
         mon = sys.monitoring
         mon.set_events(TRACE_TOOL, 0)
-        for c in self.check_codes:
-            try:
-                mon.set_local_events(TRACE_TOOL, c, 0)
-            except Exception:
-                pass
         for ev in (mon.events.PY_START, mon.events.PY_RETURN, mon.events.PY_UNWIND):
             mon.register_callback(TRACE_TOOL, ev, None)
         mon.free_tool_id(TRACE_TOOL)
+
+
+CHECK_LOCATED = []      # qualified names of the functions recognised as the token check (filled by probe_calls)
 
 
 def probe_calls(table):
     """per rule x allowed method x instance id: the call trace with the right token, without header, with a
     wrong token (a fresh server state for each request that changed something)"""
     rows = []
-    tr = CallTrace()
     w = World("live-session")
+    tr = CallTrace(w.app)
     try:
+        del CHECK_LOCATED[:]
+        CHECK_LOCATED.extend(tr.discover(w))
+        if not CHECK_LOCATED:
+            return None         # the 401 is not produced by a function of bptkServer.py: no call-order table can be built
         for i, r in enumerate(table):
             if r["static"]:
                 continue
@@ -1327,7 +1470,7 @@ def run(chk):
             table, static_files = probe_table()
             triples = probe_compare()
             calls = probe_calls(table)
-            mrows = probe_method_check()
+            mrows = probe_method_check(table)
         dist = {"by_state": {}, "by_shape": {}, "by_method": {}, "by_instance_id": {}, "by_body": {}, "trailing_slash": 0, "after_history": {},
                 "status": {}, "reached": 0, "refused": 0, "rebuilds": 0}
         h_req, h_real, h_ctx = [], [], []
@@ -1343,6 +1486,7 @@ def run(chk):
             # history, followed by refused requests; and a refused request arriving while an authorised one is in flight
             rrows, residue_attrs, op_status, fresh_served = history_singles(chk, table, (h_req, h_real, h_ctx, findings, dist))
             flight = in_flight_probe()
+            id_rows, n_ids = id_collision_stream(chk, table, (h_req, h_real, h_ctx, findings, dist))
         rrows.append(("in flight: inside the handler of an authorised GET /scenarios", flight.get("status") is not None and flight["status"] < 400 and not fresh_served))
         if flight.get("status") is not None and flight["status"] < 400 and "served-without-token" not in findings:
             findings["served-without-token"] = (f"GET /scenarios without Authorization header, arriving while an authorised GET /scenarios is inside its handler on the same "
@@ -1353,15 +1497,16 @@ def run(chk):
                     findings[k_] = (findings[k_][0] + f" — server attributes written during authorised requests: {sorted(residue_attrs)}", findings[k_][1])
         chk.notes["history_probe"] = {"authorised_requests": op_status, "attributes_written_during_authorised_requests": residue_attrs,
                                       "served_afterwards": [n_ for n_, v_ in rrows if v_]}
-        gen_text, verdict = gen_lean(table, static_files, triples, calls, mrows, rrows)
+        gen_text, verdict = gen_lean(table, static_files, triples, calls, mrows, rrows, id_rows)
         chk.notes["method_probe"] = [list(x) for x in mrows]
         chk.notes["tokens_without_header"] = [list(x) for x in ABSENT_ROWS]
         for e_, reached_, st_ in ABSENT_ROWS:
             if (reached_ or st_ < 400) and "served-without-token" not in findings:
                 findings["served-without-token"] = (f"server configured with bearer token {e_!r}: GET /scenarios without Authorization header -> HTTP {st_}, view reached: {reached_}",
                                                     {"probe": "compare", "expected": e_, "presented": None, "status": st_, "rule": "/scenarios", "method": "GET"})
-        chk.notes["call_order_probe"] = {"rows": len(calls), "programs": sorted({(r["rule"], r["method"], " > ".join(r["accepted"][:4])) for r in calls})[:80]}
-        for r in calls:      # reference: a refused request must not enter any state-touching function
+        chk.notes["call_order_probe"] = {"token_check_located_in": list(CHECK_LOCATED), "rows": len(calls or []),
+                                         "programs": sorted({(r["rule"], r["method"], " > ".join(r["accepted"][:4])) for r in calls or []})[:80]}
+        for r in calls or []:      # reference: a refused request must not enter any state-touching function
             if r["rule"] in PUBLIC:
                 continue
             for name, hdr in (("absent", None), ("wrong", "Bearer not-the-token")):
@@ -1515,11 +1660,27 @@ def run(chk):
                            "(state, rule, method, id, shape, body); non-trivial = does not present the token and rule not public"
                            % (len(table), len(shapes(quick=chk.quick)), "" if chk.quick else " x trailing-slash variant"))
         chk.cov["exhaustive"] = True
-        diff = next((i for i, (a, b) in enumerate(zip(model, real_lines)) if a != b), None)
+        def verdict_class(x):
+            # the statement fixes "refused" (a non-success status), not WHICH one: 401 / 404 / 405 / 500 are one class —
+            # a check that sits in front of the dispatch answers 401 where Flask would have answered 405
+            return "refused" if x.isdigit() and int(x) >= 400 else x
+        def same_verdict(i, a, b):
+            if verdict_class(a) == verdict_class(b):
+                return True
+            c = ctx[i] if i < len(ctx) else None
+            # an OPTIONS request that PRESENTS the token: answered by the view or by Flask's automatic OPTIONS (which a check in
+            # front of the dispatch lets through only with the token) — served either way, and not the statement's subject
+            return bool(c) and c.get("method") == "OPTIONS" and presents_ref(c.get("header"), TOKEN)
+        chk.notes["refusal_status_differences"] = sum(1 for a, b in zip(model, real_lines) if a != b and verdict_class(a) == verdict_class(b))
+        diff = next((i for i, (a, b) in enumerate(zip(model, real_lines)) if not same_verdict(i, a, b)), None)
         if diff is None and len(model) != len(real_lines):
             diff = min(len(model), len(real_lines))
         for key, (text, rep) in findings.items():
             chk.add_finding(key, text, rep)
+        if calls is None:
+            chk.add_finding("obligation", "the call-order table could not be established: no function of bptkServer.py answers a refused request with 401 "
+                            "(the token check was not located); refusal and state equality are still checked request by request",
+                            {"theorem": "Bptk.C15.Gen.call_order_ok", "detail": "token check not located"}, found_input=False)
         if not ok:
             chk.add_finding("obligation", f"proof obligations of C15 no longer check: {why}",
                             {"theorem": "Bptk.C15.Gen.*", "detail": why, "route_table": chk.notes["route_table"]}, found_input=False)
@@ -1580,9 +1741,10 @@ def replay(path):
         sink = io.StringIO()
         try:
             with contextlib.redirect_stdout(sink):
-                tr = CallTrace()
                 w = World(r["state"], token=r.get("token", TOKEN))
+                tr = CallTrace(w.app)
                 try:
+                    tr.discover(w)
                     tr.start()
                     status, reached, changes = w.request(r["rule"], r["method"], r["instance"], r["header"], UNION_BODY if r.get("body") else None)
                     trace = tr.stop()
@@ -1600,7 +1762,7 @@ def replay(path):
     sink = io.StringIO()
     try:
         with contextlib.redirect_stdout(sink):
-            w = World(r["state"], token=r.get("token", TOKEN))
+            w = collision_world(r["id_variant"]) if r.get("id_variant") else World(r["state"], token=r.get("token", TOKEN))
             try:
                 if r.get("history"):
                     run_history(w, [o for o in r["history"] if o in AUTH_OPS and AUTH_OPS[o][2] in w.ids])
